@@ -16,6 +16,7 @@ import (
 	"berty.tech/go-ipfs-log/iface"
 
 	"verifharness/ev"
+	"verifharness/fakeipfs"
 	"verifharness/sim"
 	"verifharness/world"
 )
@@ -39,7 +40,7 @@ func genC17(t *rapid.T) c17Prog {
 			// repeated by a second replica of the same writer in the same state)
 			// PC: what the failing write reports (plain error, timeout, deadline, wrapped timeout); B: how many block
 			// writes in a row fail (6 = every write until the operation has returned: an outage)
-			ops = append(ops, sim.Op{Kind: "failnext", Flag: rapid.IntRange(0, 1).Draw(t, "retry"), PC: rapid.IntRange(0, 3).Draw(t, "failKind"), B: rapid.SampledFrom([]int{1, 1, 2, 3, 6}).Draw(t, "failRun")})
+			ops = append(ops, sim.Op{Kind: "failnext", Flag: rapid.IntRange(0, 1).Draw(t, "retry"), PC: rapid.IntRange(0, 4).Draw(t, "failKind"), B: rapid.SampledFrom([]int{1, 1, 2, 3, 6}).Draw(t, "failRun")})
 			if rapid.IntRange(0, 2).Draw(t, "failpub") == 0 { // the write that fails is a publication
 				ops = append(ops, sim.Op{Kind: "publish", A: rapid.IntRange(0, w.Replicas-1).Draw(t, "pubrep")})
 			}
@@ -80,9 +81,26 @@ func (timeoutErr) Error() string   { return "injected block write failure: i/o t
 func (timeoutErr) Timeout() bool   { return true }
 func (timeoutErr) Temporary() bool { return true }
 
+// storePanic runs f and returns the injected store panic that escaped from it, if any (other panics travel on).
+func storePanic(f func()) (pf error) {
+	defer func() {
+		if r := recover(); r != nil {
+			if v, ok := r.(fakeipfs.PanicFault); ok {
+				pf = v
+				return
+			}
+			panic(r)
+		}
+	}()
+	f()
+	return nil
+}
+
 // injectedErr returns the error of kind k a failing write reports.
 func injectedErr(k int) error {
-	switch k % 4 {
+	switch k % 5 {
+	case 4:
+		return fakeipfs.PanicFault{Msg: "injected: storage layer panicked during the write"}
 	case 1:
 		return timeoutErr{}
 	case 2:
@@ -107,7 +125,7 @@ func runC17(tb ev.TB, p c17Prog) ev.Result {
 	var committed []committedAppend
 	twins, exactTwins, multiWrite, leftovers := 0, 0, 0, 0
 	cancelArmed, cancelled := false, 0
-	races := 0
+	races, panics := 0, 0
 	for i, op := range p.World.Ops {
 		n := len(w.Reps)
 		opCtx := ctx
@@ -241,7 +259,14 @@ func runC17(tb ev.TB, p c17Prog) ev.Result {
 			r := w.Reps[op.A%n]
 			before := takeState(r.Log)
 			writesBefore := w.Store.NumWrites()
-			c, err := r.Log.ToMultihash(opCtx)
+			var c cid.Cid
+			var err error
+			if pv := storePanic(func() { c, err = r.Log.ToMultihash(opCtx) }); pv != nil {
+				// the store died under the write and the panic travelled up to the caller: the operation has not
+				// returned anything; for what follows it counts as failed
+				err = pv
+				panics++
+			}
 			if opCtx != ctx && err != nil && len(r.Model) > 0 {
 				// refused because the caller had given up: fine, provided nothing changed
 				if d := before.diff(takeState(r.Log)); d != "" {
@@ -312,7 +337,11 @@ func runC17(tb ev.TB, p c17Prog) ev.Result {
 		addsBefore := w.Store.NumAdds()
 		clockBefore := w.Reps[a].Log.Clock.GetTime()
 		w.Ctx = opCtx
-		info := w.Exec(tb, i, op, false)
+		var info *sim.OpInfo
+		if pv := storePanic(func() { info = w.Exec(tb, i, op, false) }); pv != nil {
+			info = &sim.OpInfo{Index: i, Op: op, Dst: a, Src: -1, Err: pv}
+			panics++
+		}
 		w.Ctx = ctx
 		if op.Kind == "append" && opCtx != ctx && info.Err != nil && !failArmed {
 			// refused because the caller had given up: fine, provided nothing changed
@@ -514,6 +543,7 @@ func runC17(tb ev.TB, p c17Prog) ev.Result {
 	ev.Get("C17").AddExtra("write_prefixes_checked", total)
 	ev.Get("C17").AddExtra("loads_from_prefixes", loads)
 	ev.Get("C17").AddExtra("concurrent_twin_appends_of_one_block", races)
+	ev.Get("C17").AddExtra("store_panics_that_reached_the_caller", panics)
 	ev.Get("C17").AddExtra("operations_issued_with_a_cancelled_context", cancelled)
 	ev.Get("C17").AddExtra("injected_write_failures", nfail)
 	ev.Get("C17").AddExtra("operations_repeated_right_after_a_failed_write", retries)
@@ -581,7 +611,7 @@ func (a state) diff(b state) string {
 func TestC17(t *testing.T) {
 	c := ev.Get("C17")
 	c.Level = "fault_enumeration"
-	c.Rule = "a generated multi-replica program over ONE shared store (appends with skip references, unbounded merges, identity changes, default or link-key codec) interleaved with manifest publications, injected block-write failures (1, 2 or 3 writes in a row or every write until the operation has returned; reported as a plain error, as an error that calls itself a timeout, as a deadline error or as a wrapped timeout; half of them followed at once by the same operation again: the publication repeated, the append made by a second replica of the same writer in the same state) appends that an access controller refuses although they reproduce a committed block, appends / publications issued with an already cancelled context (whatever they return without an error must be stored), and two replicas of one writer appending the same entry at the same time while the first write of the block is held inside the store (what the second returns must be stored already). Crash points are the boundaries between block writes of the fake store (every Dag().Add of the library is one atomic step): for EVERY write prefix of the history every entry block must decode and name only blocks written before it, and every manifest only stored heads. Every value returned to a caller (each append's hash, each manifest CID) is loaded from the store truncated to the prefix that existed when it was returned, from the final store and from further prefixes (all later prefixes in the thorough tier, 2 generated ones in quick) and must give exactly the entry set / heads / values of the log at that moment. An operation whose block write fails must either return an error and leave entries and heads unchanged, or return a value whose block is stored after all (it is then held to the same loads). Non-trivial = history with a merge-append (entry with >= 2 predecessors) and an append after a publication by the same replica; distinct = distinct program."
+	c.Rule = "a generated multi-replica program over ONE shared store (appends with skip references, unbounded merges, identity changes, default or link-key codec) interleaved with manifest publications, injected block-write failures (1, 2 or 3 writes in a row or every write until the operation has returned; reported as a plain error, as an error that calls itself a timeout, as a deadline error, as a wrapped timeout - or not reported at all: the storage layer panics under the write (a panic that reaches the caller counts as a failed operation); half of them followed at once by the same operation again: the publication repeated, the append made by a second replica of the same writer in the same state) appends that an access controller refuses although they reproduce a committed block, appends / publications issued with an already cancelled context (whatever they return without an error must be stored), and two replicas of one writer appending the same entry at the same time while the first write of the block is held inside the store (what the second returns must be stored already). Crash points are the boundaries between block writes of the fake store (every Dag().Add of the library is one atomic step): for EVERY write prefix of the history every entry block must decode and name only blocks written before it, and every manifest only stored heads. Every value returned to a caller (each append's hash, each manifest CID) is loaded from the store truncated to the prefix that existed when it was returned, from the final store and from further prefixes (all later prefixes in the thorough tier, 2 generated ones in quick) and must give exactly the entry set / heads / values of the log at that moment. An operation whose block write fails must either return an error and leave entries and heads unchanged, or return a value whose block is stored after all (it is then held to the same loads). Non-trivial = history with a merge-append (entry with >= 2 predecessors) and an append after a publication by the same replica; distinct = distinct program."
 	c.Assumptions = []string{"replicas share one store (the statement's setting); block writes are atomic", "the clock bump of a failed append is not part of the observable state checked (entries and heads are)"}
 	ev.Check(t, "C17", genC17, runC17)
 }
